@@ -48,7 +48,28 @@ impl LanguageServer {
         let stdin = tokio::io::stdin();
         let mut framed_read = FramedRead::new(stdin, io::LSCodec);
 
-        phases::initialization(&mut self, &mut framed_read, iotx.clone())
+        let result = self.serve(&mut framed_read, iotx, &mut handles).await;
+
+        // All senders are dropped by now.
+        // Wait until every message, that has been queued so far, is written.
+        for handle in handles {
+            handle.await.expect("Cannot await handle");
+        }
+        match result {
+            Err(err) if err.chain().any(|cause| cause.is::<UngracefulExit>()) => {
+                std::process::exit(1) // ungraceful exit
+            }
+            result => result,
+        }
+    }
+
+    async fn serve(
+        &mut self,
+        framed_read: &mut FramedRead<tokio::io::Stdin, io::LSCodec>,
+        iotx: mpsc::Sender<io::Message>,
+        handles: &mut Vec<tokio::task::JoinHandle<()>>,
+    ) -> Result<()> {
+        phases::initialization(self, framed_read, iotx.clone())
             .await
             .wrap_err("Unexpected error occured during initialization")?;
 
@@ -60,21 +81,28 @@ impl LanguageServer {
             self.client_details.diagnostics,
         )));
 
-        phases::main(&mut framed_read, iotx.clone(), doctx.clone())
+        phases::main(framed_read, iotx.clone(), doctx.clone())
             .await
             .wrap_err("Unexpected error occured during main phase")?;
 
-        phases::shutdown(&mut framed_read, iotx)
+        phases::shutdown(framed_read, iotx)
             .await
-            .wrap_err("Unexpected error occured during shutdown")?;
-
-        drop(doctx);
-        for handle in handles {
-            handle.await.expect("Cannot await handle");
-        }
-        Ok(())
+            .wrap_err("Unexpected error occured during shutdown")
     }
 }
+
+/// The client sent the `exit` notification without a preceding `shutdown` request.
+/// The process ends with status 1, but not before the pending responses are written.
+#[derive(Debug)]
+struct UngracefulExit;
+
+impl std::fmt::Display for UngracefulExit {
+    fn fmt(&self, f: &mut std::fmt::Formatter<'_>) -> std::fmt::Result {
+        write!(f, "Recieved exit notification without shutdown request")
+    }
+}
+
+impl std::error::Error for UngracefulExit {}
 
 mod phases {
     use super::LanguageServer;
@@ -138,7 +166,7 @@ mod phases {
                 }
                 Message::Notification(notification) => {
                     if notification.method.as_str() == Exit::METHOD {
-                        std::process::exit(1) // ungraceful exit
+                        return Err(super::UngracefulExit.into());
                     }
                 }
                 Message::Response(response) => {
@@ -168,7 +196,7 @@ mod phases {
                 }
                 Message::Notification(notification) => match notification.method.as_str() {
                     Initialized::METHOD => break, // Server is properly initialized and can start working
-                    Exit::METHOD => std::process::exit(1), // ungraceful exit
+                    Exit::METHOD => return Err(super::UngracefulExit.into()),
                     _ => { /* drop all other notifications */ }
                 },
                 Message::Response(response) => {
@@ -264,7 +292,7 @@ mod phases {
                         DidCloseTextDocument::METHOD => {
                             note!(notification, document::close, doctx.clone());
                         }
-                        Exit::METHOD => std::process::exit(1), // ungraceful exit
+                        Exit::METHOD => return Err(super::UngracefulExit.into()),
                         _ => { /* drop all other notifications */ }
                     };
                 }
